@@ -30,8 +30,9 @@ type X struct {
 	Notes        []string
 	WaitStep     int // step at which Progress.Wait returned (0 = did not)
 	WritesAtWait int
-	FailWrite    int // fail the k-th output write (1-based), 0 = never
-	FaultStep    int // step at which the injected fault fired (0 = none)
+	ShutAtWait   []int // listener notification counts at the moment Wait returned
+	FailWrite    int   // fail the k-th output write (1-based), 0 = never
+	FaultStep    int   // step at which the injected fault fired (0 = none)
 	FaultText    string
 	Stream       string  // pty: everything the terminal received
 	CycleBegin   []int   // steps at which the container goroutine took a refresh request
@@ -60,6 +61,16 @@ func (x *X) RegisterShut(name string) int {
 	x.shutNames = append(x.shutNames, name)
 	x.shutCounts = append(x.shutCounts, 0)
 	return len(x.shutNames) - 1
+}
+
+// ShutCountAtWait is the number of notifications the listener had received when Progress.Wait returned.
+func (x *X) ShutCountAtWait(name string) int {
+	for i, n := range x.shutNames {
+		if n == name && i < len(x.ShutAtWait) {
+			return x.ShutAtWait[i]
+		}
+	}
+	return 0
 }
 
 func (x *X) ShutCount(name string) int {
